@@ -586,10 +586,21 @@ def _check_edges(begin: sc.Variable, end: sc.Variable) -> None:
 
 
 def _check_edge_overlap(begin: sc.Variable, end: sc.Variable) -> None:
-    edges = sc.concat([begin.flatten(to='slit'), end.flatten(to='slit')], dim='edge')
+    # Slits are periodic in the angle: compare them on the circle by reducing
+    # 'begin' to [0, 2pi) and moving 'end' along with it.
+    begin = begin.flatten(to='slit').to(dtype='float64')
+    end = end.flatten(to='slit').to(dtype='float64')
+    turn = sc.scalar(2 * np.pi, unit='rad').to(unit=begin.unit)
+    width = end - begin
+    begin = begin % turn
+    edges = sc.concat([begin, begin + width], dim='edge')
     edges = sc.sort(edges, key=edges['edge', 0])
     begin, end = edges['edge', 0], edges['edge', 1]
-    if sc.any(begin[1:] <= end[:-1]):
+    # The last slit must also end before the first one comes around again
+    # (a single slit may span exactly one full turn).
+    again = begin[:1] + turn
+    wraps = again < end[-1:] if len(begin) == 1 else again <= end[-1:]
+    if sc.any(begin[1:] <= end[:-1]) or sc.any(wraps):
         raise ValueError('The chopper has overlapping slits.')
 
 
